@@ -17,6 +17,7 @@ CONSTANTS
   MaxConflicts = 0
   CancelIsTimeout = FALSE
   RecordScript = TRUE
+  NetLoss = FALSE
 VIEW MView
 INVARIANTS MonSafetyHolds MonFinalHolds MonPremiseMet
 CHECK_DEADLOCK FALSE
